@@ -14,7 +14,7 @@ import json
 import os
 import subprocess
 
-from vx.core import pool, px
+from vx.core import pool, px, terms
 
 ID = "C33"
 LEVEL = "model_checking"
@@ -50,10 +50,115 @@ def shards(tier):
             for i in range(n):
                 sh.append([d, i, n, mode])
     sh.sort(key=lambda s: -s[0])
+    for pad in range(8):
+        sh.append(["machine", pad])
     return sh
 
 
+# --- full machine under one-cell growth and the canary allocator ---------------
+# string workloads at every byte length 0..25 (every residue mod 8 on both sides
+# of the 8/16/24-byte cell boundaries), each after padding the heap with 0..7
+# cells, with tight growth (free space is always exactly what was asked for)
+# in a pworker whose allocator surrounds every block with canaries (PW_REDZONE).
+
+MACHINE_OPS = [
+    "copy_term(f(S, S, g(S)), C), C = f(S2, _, _), S2 == S",
+    "atom_chars(A, S), atom_chars(A, S2), S2 == S",
+    "append(S, \"xyz\", L), append(S0, \"xyz\", L), S0 == S",
+    "findall(S, member(_, [1,2]), L), L = [S1, S2], S1 == S, S2 == S",
+    "(retractall(c33(_)), assertz(c33(S)), c33(S2), retract(c33(_)), S2 == S)",
+    "T =.. [foo, S, S], T = foo(S2, _), S2 == S",
+    "(S = [_|T] -> copy_term(T, T2), T2 == T ; true)",
+    "(S = [_,_,_|T] -> copy_term(h(T, S), h(T2, S2)), T2 == T, S2 == S ; true)",
+    "length(S, N), length(S2, N), S2 = S",
+    "bb_put(c33k, S), bb_get(c33k, S2), S2 == S",
+    "catch(throw(ball(S)), ball(S2), true), S2 == S",
+    "sort([S, \"a\", S], L), msort33([S, S], L2), L2 = [S, S]",
+]
+MACHINE_HELPER = ":- dynamic(c33/1).\nmsort33(L, L).\n:- use_module(library(lists)).\n:- use_module(library(iso_ext)).\n"
+
+
+def machine_cases(pad):
+    for n in range(0, 26):
+        for kind in ("a", "e", "n"):
+            if kind == "a":
+                s = "a" * n
+            elif kind == "e":
+                if n < 2:
+                    continue
+                s = "a" * (n - 2) + "\u00e9"   # ends in a 2-byte character
+            else:
+                if n < 3:
+                    continue
+                s = "ab" + "c" * (n - 3) + "d"
+            for oi, op in enumerate(MACHINE_OPS):
+                goal = "length(Pad, %d), S = %s, %s" % (pad, terms.quote_string(s), op)
+                yield {"pad": pad, "len": n, "kind": kind, "op": oi}, goal
+
+
+def run_machine(shard):
+    pad = shard[1]
+    w = pool.Worker(extra_env={"PW_REDZONE": "1"})
+    acc = px.ShardAcc()
+    try:
+        r = w.rpc({"op": "rz"})
+        if not r.get("enabled"):
+            raise pool.MachineryError("pworker red zone not enabled")
+        w.consult(MACHINE_HELPER, persist=True)
+        cases = list(machine_cases(pad))
+        for batch in px.chunked(cases, 60):
+            w.rpc({"op": "tight", "on": True})
+            rs = px.run_goals(w, ["g((%s))" % g for (_, g) in batch])
+            w.rpc({"op": "tight", "on": False})
+            smashed = w.rpc({"op": "rz"}).get("smashed", 0)
+            for (c, g), r in zip(batch, rs):
+                ok = (not r.abn) and r.status == "done" and len(r.sols) == 1
+                acc.case(c["len"] % 8 == 7 or c["len"] % 8 == 0, "machine_ok" if ok else "machine_bad", sample={"goal": g})
+                if not ok:
+                    acc.violation("machine: %s [op %d]" % (r.abn or "goal did not succeed once (%s, %d solutions)" % (r.status, len(r.sols)), c["op"]),
+                                  dict(c, kind2="machine"), observed=repr(r)[:300])
+            if smashed:
+                # attribute: re-run the batch one case at a time in a fresh worker
+                for (c, g) in batch:
+                    v = recheck_machine(c)
+                    if v:
+                        acc.violation(v["sig"], dict(c, kind2="machine"), observed=v["observed"])
+                w.close()
+                w = pool.Worker(extra_env={"PW_REDZONE": "1"})
+                w.consult(MACHINE_HELPER, persist=True)
+        return acc.result()
+    finally:
+        w.close()
+
+
+def recheck_machine(c):
+    goal = None
+    for cc, g in machine_cases(c["pad"]):
+        if cc["len"] == c["len"] and cc["kind"] == c["kind"] and cc["op"] == c["op"]:
+            goal = g
+    w = pool.Worker(extra_env={"PW_REDZONE": "1"})
+    try:
+        w.consult(MACHINE_HELPER, persist=True)
+        w.rpc({"op": "tight", "on": True})
+        r = px.run_goals(w, ["g((%s))" % goal])[0]
+        w.rpc({"op": "tight", "on": False})
+        # growth and release of the heap verify the canaries of the old blocks
+        px.run_goals(w, ["length(L, 5000)"])
+        smashed = w.rpc({"op": "rz"}).get("smashed", 0)
+        if smashed:
+            return {"sig": "machine: write outside an allocated block (canary overwritten) [op %d, len%%8=%d]" % (c["op"], c["len"] % 8),
+                    "case": dict(c, kind2="machine"), "observed": "smashed=%d goal=%s" % (smashed, goal)}
+        if r.abn or r.status != "done" or len(r.sols) != 1:
+            return {"sig": "machine: %s [op %d]" % (r.abn or "goal did not succeed once (%s, %d solutions)" % (r.status, len(r.sols)), c["op"]),
+                    "case": dict(c, kind2="machine"), "observed": repr(r)[:300]}
+        return None
+    finally:
+        w.close()
+
+
 def run_shard(w, shard, tier):
+    if shard[0] == "machine":
+        return run_machine(shard)
     d, i, n, mode = shard
     args = [MC, "explore", str(d), str(i), str(n)] + ([mode] if mode else [])
     p = subprocess.run(args, capture_output=True, timeout=3000)
@@ -77,6 +182,8 @@ def run_shard(w, shard, tier):
 
 
 def recheck(w, case, tier):
+    if case.get("kind2") == "machine":
+        return recheck_machine(case)
     p = subprocess.run([MC, "replay", case["levels"], "1" if case["tight"] else "0", case["ops"]],
                        capture_output=True, timeout=60)
     if p.returncode != 0:
